@@ -37,14 +37,22 @@ Fixpoint chk_kinds (dx dy dz : bool) (i : nat) (svs : list spoint) : bool :=
               && chk_kinds dx dy dz (S i) r
   end.
 
+Definition mverts {F} (m : @mesh F) : list (V3 F) := fst (fst m).
+Definition mtets {F} (m : @mesh F) : list tet := snd (fst m).
+Definition mpots {F} (m : @mesh F) : list F := snd m.
+
+(** (projections, not a destructuring [let]: the kernel must never be led to evaluate
+    [sym_box] on variable booleans) *)
 Definition box_class_ok (dx dy dz : bool) : bool :=
-  let '(vs, ts, _) := sym_box dx dy dz in
   let hx := sym_h dx 0 in let hy := sym_h dy 1 in let hz := sym_h dz 2 in
-  chk_oriented 1 vs ts &&
-  chk_sum 1 vs ts (pscale [] 48 (pmul (pmul hx hy) hz)) &&
-  chk_inbox hx hy hz vs &&
-  chk_disjoint vs ts &&
-  chk_kinds dx dy dz 0 vs.
+  chk_oriented 1 (mverts (sym_box dx dy dz)) (mtets (sym_box dx dy dz)) &&
+  chk_sum 1 (mverts (sym_box dx dy dz)) (mtets (sym_box dx dy dz)) (pscale [] 48 (pmul (pmul hx hy) hz)) &&
+  chk_inbox hx hy hz (mverts (sym_box dx dy dz)) &&
+  chk_disjoint (mverts (sym_box dx dy dz)) (mtets (sym_box dx dy dz)) &&
+  chk_kinds dx dy dz 0 (mverts (sym_box dx dy dz)).
+
+(** conversion must never unfold the table-driven computations on variable booleans *)
+Local Strategy opaque [sym_box chk_oriented chk_sum chk_inbox chk_disjoint chk_kinds box_core].
 
 (** the finite computation on the extracted tables: all 7 reachable classes *)
 Lemma box_classes_ok dx dy dz : dx || dy || dz = true -> box_class_ok dx dy dz = true.
@@ -56,15 +64,23 @@ Local Open Scope R_scope.
 Definition box_pots (mh : R) (n : nat) : list R :=
   map (fun idx => if Nat.ltb idx box_n_corner then 0 else mh) (seq 0 n).
 
+Ltac mesh_eq :=
+  repeat match goal with
+         | |- (_, _) = (_, _) => apply f_equal2
+         | |- cons _ _ = cons _ _ => apply f_equal2
+         | |- V _ _ _ = V _ _ _ => apply f_equal3
+         | |- nil = nil => reflexivity
+         end.
+
 Lemma box_core_sym dx dy dz (cx cy cz ex ey ez mh : R) :
   let env := [cx; cy; cz; ex; ey; ez] in
   box_core (O := ROps)
            (V (peval env (sym_h dx 0)) (peval env (sym_h dy 1)) (peval env (sym_h dz 2)))
            (V (peval env (sym_c dx 0)) (peval env (sym_c dy 1)) (peval env (sym_c dz 2))) dx dy dz mh
-  = (map (eval_pt env) (fst (fst (sym_box dx dy dz))), snd (fst (sym_box dx dy dz)),
-     box_pots mh (length (fst (fst (sym_box dx dy dz))))).
+  = (map (eval_pt env) (mverts (sym_box dx dy dz)), mtets (sym_box dx dy dz),
+     box_pots mh (length (mverts (sym_box dx dy dz)))).
 Proof.
-  destruct dx, dy, dz; vm_compute; repeat f_equal; ring.
+  destruct dx, dy, dz; vm_compute; mesh_eq; try reflexivity; ring.
 Qed.
 
 (** ** real-number facts about the prologue of make_tetrahedral_box *)
@@ -148,6 +164,18 @@ Section Kinds.
 End Kinds.
 
 (** ** per class: the claims for the evaluation of the symbolic run *)
+Definition box_claims (sigma hx hy hz mh total : R) (m : @mesh R) : Prop :=
+  (* every element refers to existing vertices and has non-zero volume of orientation sign [sigma] *)
+  tets_oriented sigma (mverts m) (mtets m) /\
+  (* sigma * 6 * the signed volumes add up to [total] *)
+  sum_vol6 sigma (mverts m) (mtets m) = Some total /\
+  (* all vertices (hence all elements) lie in the box *)
+  verts_in_box hx hy hz (mverts m) /\
+  (* no two elements overlap *)
+  interiors_disjoint (mverts m) (mtets m) /\
+  (* potential = distance to the boundary of the box: 0 (corners) or the inradius (medial) *)
+  Forall2 (fun p q => q = box_depth hx hy hz p /\ (q = 0 \/ q = mh)) (mverts m) (mpots m).
+
 Lemma box_core_class dx dy dz (c1 c2 c3 e1 e2 e3 mh : R) :
   dx || dy || dz = true ->
   let env := [c1; c2; c3; e1; e2; e3] in
@@ -155,12 +183,8 @@ Lemma box_core_class dx dy dz (c1 c2 c3 e1 e2 e3 mh : R) :
   let hx := peval env (sym_h dx 0) in let hy := peval env (sym_h dy 1) in let hz := peval env (sym_h dz 2) in
   let cx := peval env (sym_c dx 0) in let cy := peval env (sym_c dy 1) in let cz := peval env (sym_c dz 2) in
   Rmin (hx - cx) (Rmin (hy - cy) (hz - cz)) = mh ->
-  let '(vs, ts, ps) := box_core (O := ROps) (V hx hy hz) (V cx cy cz) dx dy dz mh in
-  tets_oriented 1 vs ts /\
-  sum_vol6 1 vs ts = Some (48 * (hx * hy * hz)) /\
-  verts_in_box hx hy hz vs /\
-  interiors_disjoint vs ts /\
-  Forall2 (fun p q => q = box_depth hx hy hz p /\ (q = 0 \/ q = mh)) vs ps.
+  box_claims 1 hx hy hz mh (48 * (hx * hy * hz))
+             (box_core (O := ROps) (V hx hy hz) (V cx cy cz) dx dy dz mh).
 Proof.
   intros Hd env Henv hx hy hz cx cy cz Hemin.
   assert (Hc : 0 <= cx /\ 0 <= cy /\ 0 <= cz /\ 0 <= hx /\ 0 <= hy /\ 0 <= hz).
@@ -171,8 +195,10 @@ Proof.
   pose proof (box_core_sym dx dy dz c1 c2 c3 e1 e2 e3 mh) as CS. cbv zeta in CS.
   fold env in CS. fold hx hy hz cx cy cz in CS. rewrite CS. clear CS.
   unfold box_class_ok in OK.
-  destruct (sym_box dx dy dz) as [[svs sts] sps]. cbn [fst snd].
+  set (svs := mverts (sym_box dx dy dz)) in *. set (sts := mtets (sym_box dx dy dz)) in *.
+  clearbody svs sts.
   repeat (apply andb_true_iff in OK as [OK ?]).
+  unfold box_claims, mverts, mtets, mpots. cbn [fst snd].
   repeat split.
   - apply (chk_oriented_sound env Henv 1). assumption.
   - rewrite (chk_sum_sound env 1 svs sts _ H2). f_equal.
@@ -185,18 +211,7 @@ Qed.
 (** ** the theorem: make_tetrahedral_box, all sizes *)
 Definition box_statement (sx sy sz : R) : Prop :=
   let hx := sx / 2 in let hy := sy / 2 in let hz := sz / 2 in
-  let mh := Rmin (Rmin hx hy) hz in
-  let '(vs, ts, ps) := box_mesh (O := ROps) sx sy sz in
-  (* every element refers to existing vertices and has positive oriented volume *)
-  tets_oriented 1 vs ts /\
-  (* 6 * the volumes add up to 6 * the volume of the box *)
-  sum_vol6 1 vs ts = Some (6 * (sx * sy * sz)) /\
-  (* all vertices (hence all elements) lie in the box *)
-  verts_in_box hx hy hz vs /\
-  (* no two elements overlap *)
-  interiors_disjoint vs ts /\
-  (* potential = distance to the boundary of the box: 0 (corners) or the inradius (medial) *)
-  Forall2 (fun p q => q = box_depth hx hy hz p /\ (q = 0 \/ q = mh)) vs ps.
+  box_claims 1 hx hy hz (Rmin (Rmin hx hy) hz) (6 * (sx * sy * sz)) (box_mesh (O := ROps) sx sy sz).
 
 Theorem box_mesh_exact_tiling sx sy sz : 0 < sx -> 0 < sy -> 0 < sz -> box_statement sx sy sz.
 Proof.
@@ -269,7 +284,86 @@ Proof.
     destruct Cx as [(? & -> & ?)|(? & -> & ?)], Cy as [(? & -> & ?)|(? & -> & ?)],
              Cz as [(? & -> & ?)|(? & -> & ?)]; repeat constructor; lra. }
   specialize (CC Henv Hemin).
-  destruct (box_core (V hx hy hz) (V cx cy cz) dx dy dz mh) as [[vs ts] ps].
   destruct CC as (A1 & A2 & A3 & A4 & A5). repeat split; try assumption.
   rewrite A2. f_equal. unfold hx, hy, hz. field.
+Qed.
+
+(** ** make_tetrahedral_cube, all sizes: one parameter S = size / 2 (variable 0) *)
+Definition Sv : poly := pvar 0.
+(** a table entry n/2 or n/1 as a multiple of S *)
+Definition qsym (q : Q) : poly :=
+  if (Zpos (Qden q) =? 2)%Z then pscale [] (Qnum q) Sv
+  else if (Zpos (Qden q) =? 1)%Z then pscale [] (2 * Qnum q) Sv else pvar 1 (* not a half-integer: fails the tests *).
+Definition sym_cube_verts : list spoint := map (fun '(x, y, z) => V (qsym x) (qsym y) (qsym z)) cube_verts.
+Definition cube_elems : list tet :=
+  map (fun '(a, b, c, d) => (Z.of_nat a, Z.of_nat b, Z.of_nat c, Z.of_nat d)) cube_tets.
+
+(** vertices with potential 0.0 are corners (+-S), the one with size / 2.0 is the centre *)
+Fixpoint chk_cube_kinds (svs : list spoint) (ps : list cpot) : bool :=
+  match svs, ps with
+  | [], [] => true
+  | s :: r, p :: rp => (match p with CPzero => is_at Sv Sv Sv s | CPhalfsize => is_at [] [] [] s end)
+                       && chk_cube_kinds r rp
+  | _, _ => false
+  end.
+
+Definition cube_ok : bool :=
+  chk_oriented (-1) sym_cube_verts cube_elems &&
+  chk_sum (-1) sym_cube_verts cube_elems (pscale [] 48 (pmul (pmul Sv Sv) Sv)) &&
+  chk_inbox Sv Sv Sv sym_cube_verts &&
+  chk_disjoint sym_cube_verts cube_elems &&
+  chk_cube_kinds sym_cube_verts cube_pots.
+
+Local Strategy opaque [sym_cube_verts cube_elems chk_cube_kinds].
+
+Lemma cube_table_ok : cube_ok = true.
+Proof. vm_cast_no_check (eq_refl true). Qed.
+
+Lemma cube_mesh_sym (size : R) :
+  cube_mesh (O := ROps) size
+  = (map (eval_pt [size / 2]) sym_cube_verts, cube_elems,
+     map (fun p => match p with CPzero => 0 | CPhalfsize => size / 2 end) cube_pots).
+Proof. vm_compute. mesh_eq; try reflexivity; field. Qed.
+
+Lemma chk_cube_kinds_sound (h : R) svs ps :
+  0 < h -> chk_cube_kinds svs ps = true ->
+  Forall2 (fun p q => q = box_depth h h h p /\ (q = 0 \/ q = h))
+          (map (eval_pt [h]) svs) (map (fun p => match p with CPzero => 0 | CPhalfsize => h end) ps).
+Proof.
+  intros Hh. revert ps; induction svs as [|s r IH]; intros [|p rp] H; cbn [chk_cube_kinds map] in *;
+    try discriminate; [constructor|].
+  apply andb_true_iff in H as [H1 H2]. constructor; [|apply IH; assumption].
+  assert (ES : peval [h] Sv = h) by (cbn; lra).
+  assert (E0 : peval [h] [] = 0) by reflexivity.
+  unfold box_depth, eval_pt; cbn [vx vy vz].
+  destruct p; unfold is_at in H1; repeat (apply andb_true_iff in H1 as [H1 ?]).
+  - rewrite (is_pm_sound [h] (vx s) Sv), (is_pm_sound [h] (vy s) Sv), (is_pm_sound [h] (vz s) Sv);
+      try assumption; try (rewrite ES; lra).
+    rewrite ES. replace (h - h) with 0 by lra. split; [|left; reflexivity].
+    symmetry. apply Rmin3_eq; lra.
+  - rewrite (is_pm_sound [h] (vx s) []), (is_pm_sound [h] (vy s) []), (is_pm_sound [h] (vz s) []);
+      try assumption; try (rewrite E0; lra).
+    rewrite E0. replace (h - 0) with h by lra. split; [|right; reflexivity].
+    symmetry. apply Rmin3_eq; lra.
+Qed.
+
+Definition cube_statement (size : R) : Prop :=
+  box_claims (-1) (size / 2) (size / 2) (size / 2) (size / 2) (6 * (size * size * size))
+             (cube_mesh (O := ROps) size).
+
+Theorem cube_mesh_exact_tiling size : 0 < size -> cube_statement size.
+Proof.
+  intros Hs. unfold cube_statement. rewrite cube_mesh_sym.
+  pose proof cube_table_ok as OK. unfold cube_ok in OK.
+  repeat (apply andb_true_iff in OK as [OK ?]).
+  assert (Henv : env_pos [size / 2]) by (repeat constructor; lra).
+  assert (ES : peval [size / 2] Sv = size / 2) by (cbn; lra).
+  unfold box_claims, mverts, mtets, mpots. cbn [fst snd].
+  repeat split.
+  - apply (chk_oriented_sound _ Henv (-1)). assumption.
+  - rewrite (chk_sum_sound _ (-1) _ _ _ H2). f_equal.
+    rewrite peval_pscale0, !peval_pmul, ES. field.
+  - rewrite <- ES at 1 2 3. apply (chk_inbox_sound _ Henv). assumption.
+  - apply (chk_disjoint_sound _ Henv). assumption.
+  - apply chk_cube_kinds_sound; [lra | assumption].
 Qed.
